@@ -12,6 +12,9 @@
 EXTENDS Naturals, Sequences, FiniteSets, TLC
 
 CONSTANTS AtomicClose, NWork, NMembers, MaxFaults,
+          CrossDevice,       \* world: the temporary area and the output folder are on two file systems
+          StageInTemp,       \* design switch: the complete archive is staged in the temporary area (not next to the
+                             \* target) and moved; across devices a move is open(target, "w") + copy + close
           CloseOnInterrupt   \* design switch: __exit__ skips close() only for Exception, not for an interruption (KeyboardInterrupt, SystemExit, GeneratorExit)
 
 VARIABLES kind,    \* "new" | "edit"
@@ -35,7 +38,9 @@ Init == /\ kind \in {"new", "edit", "copy"}
 
 (* the close region as a sequence of step names *)
 CloseSteps ==
-  IF AtomicClose
+  IF AtomicClose /\ StageInTemp /\ CrossDevice
+  THEN <<"sideopen">> \o [m \in 1..NMembers |-> "sideadd"] \o <<"sideclose", "taropen", "taradd", "tarclose", "rmtree">>
+  ELSE IF AtomicClose
   THEN <<"sideopen">> \o [m \in 1..NMembers |-> "sideadd"] \o <<"sideclose", "replace", "rmtree">>
   ELSE <<"unlink", "taropen">> \o [m \in 1..NMembers |-> "taradd"] \o <<"tarclose", "rmtree">>
 
